@@ -13,6 +13,7 @@ Nothing is evaluated numerically.
 from __future__ import annotations
 
 import ast
+import copy
 import importlib.util
 import os
 from dataclasses import dataclass, field
@@ -171,7 +172,7 @@ class MetricTranslator:
         i = 0
         while i < len(stmts):
             s = stmts[i]
-            if isinstance(s, ast.Expr) and isinstance(s.value, ast.Constant):
+            if (isinstance(s, ast.Expr) and isinstance(s.value, ast.Constant)) or isinstance(s, ast.Pass):
                 i += 1
                 continue
             if isinstance(s, ast.Assign) and len(s.targets) == 1 and isinstance(s.targets[0], ast.Name):
@@ -227,6 +228,11 @@ class MetricTranslator:
             raise AnalysisError(f"{fi.name}: unsupported loop header")
         ivar = loop.target.id
         # the loop (and the buffer it fills) covers every coordinate: range(n) with n the vector length
+        if len(loop.iter.args) in (2, 3) and isinstance(loop.iter.args[0], ast.Constant) and loop.iter.args[0].value == 0 \
+                and (len(loop.iter.args) == 2 or (isinstance(loop.iter.args[2], ast.Constant) and loop.iter.args[2].value == 1)):
+            loop = copy.copy(loop)
+            loop.iter = copy.copy(loop.iter)
+            loop.iter.args = [loop.iter.args[1]]  # range(0, n[, 1]) is range(n)
         if len(loop.iter.args) != 1 or loop.iter.keywords:
             raise MetricViolation(f"{fi.name}:{loop.lineno}: the element loop '{unparse(loop.iter)}' does not run over all coordinates")
         try:
@@ -241,6 +247,7 @@ class MetricTranslator:
 
         def body(stmts, benv):
             benv = dict(benv)
+            stmts = [x for x in stmts if not isinstance(x, ast.Pass)]
             for k, st in enumerate(stmts):
                 last = k == len(stmts) - 1
                 if isinstance(st, ast.Assign) and len(st.targets) == 1 and isinstance(st.targets[0], ast.Name):
@@ -268,6 +275,11 @@ class MetricTranslator:
         if isinstance(node, ast.Compare) and len(node.ops) == 1 and isinstance(node.ops[0], (ast.Is, ast.Eq)) \
                 and isinstance(node.comparators[0], ast.Constant) and node.comparators[0].value is True:
             return self._cond(node.left, env, ops, obl, fi, depth)
+        if isinstance(node, ast.UnaryOp) and isinstance(node.op, ast.Not):
+            return sp.Not(self._cond(node.operand, env, ops, obl, fi, depth))
+        if isinstance(node, ast.Compare) and len(node.ops) == 1 and isinstance(node.ops[0], (ast.IsNot, ast.NotEq)) \
+                and isinstance(node.comparators[0], ast.Constant) and node.comparators[0].value is True:
+            return sp.Not(self._cond(node.left, env, ops, obl, fi, depth))
         k, e = self._expr(node, env, ops, obl, fi, depth)
         if k not in ("bool", "boolvec"):
             raise AnalysisError(f"{fi.name}: condition is not boolean: {unparse(node)}")
